@@ -37,6 +37,7 @@ impl AnnounceMessage {
 
         self.origin_timestamp.serialize(&mut buffer[0..10])?;
         buffer[10..12].copy_from_slice(&self.current_utc_offset.to_be_bytes());
+        buffer[12] = 0; // reserved
         buffer[13] = self.grandmaster_priority_1;
         self.grandmaster_clock_quality
             .serialize(&mut buffer[14..18])?;
